@@ -163,7 +163,7 @@ fn list_history(ctx: &mut Ctx, rng: &mut Rng) {
 	}
 }
 
-#[cfg(feature = "full")]
+#[cfg(feature = "bitvec-f")]
 fn bits_history<T: bitvec::store::BitStore + parity_scale_codec::Encode + crate::modeled::StoreName, O: bitvec::order::BitOrder + crate::modeled::OrderName>(
 	ctx: &mut Ctx,
 	rng: &mut Rng,
@@ -255,7 +255,7 @@ pub fn hist_stream(ctx: &mut Ctx) {
 			ctx.oracle_fail("C06", "String with spare capacity encodes differently".to_string());
 		}
 	}
-	#[cfg(feature = "full")]
+	#[cfg(feature = "bitvec-f")]
 	{
 		use bitvec::prelude::*;
 		for _ in 0..(rounds / 10).max(2) {
